@@ -159,7 +159,13 @@ class CollectionAttrMutator(metaclass=ABCMeta):
             self.collection = self._create_collection()
             self.add_items(items)
             return self
-        if self.collection and self.prepare_item:
+        if self.collection and self.attr_spec.prepare_item:
+            # Rebuild rather than edit the incoming collection in place, since
+            # it is typically still referenced by the caller.
+            items = self.collection
+            self.collection = self._create_collection()
+            self.add_items(items)
+        elif self.collection:
             self._prepare_items()
         return self
 
